@@ -48,6 +48,41 @@ theorem wordValue_append (ρ : Rep n R) (u v : Word) :
     ρ.value (u ++ v) = (do let a ← ρ.value u; let b ← ρ.value v; pure (a * b)) :=
   Rep.value_append ρ u v
 
+/-- `rep.element(s, parse_simple=b)` parses with the explicit flag, `rep[s]` / `parse_simple=None`
+with the representation's own setting -/
+theorem element_parse_simple (ρ : Rep n R) (s : String) :
+    (∀ b, ρ.wordValueS s (some b) = ρ.wordValue (parseWord b s)) ∧
+    ρ.wordValueS s none = ρ.wordValue (parseWord ρ.parseSimple s) := ⟨fun _ => rfl, rfl⟩
+
+/-- `rep.elements(words)`: one image per word, in the order of the words, and defined exactly
+when every word has an image -/
+theorem elements_pointwise (ρ : Rep n R) (ws : List Word) :
+    (∀ ms, ρ.elements ws = .ok ms → List.Forall₂ (fun w M => ρ.value w = .ok (DMat.toMatrix M)) ws ms) ∧
+    ((∀ w ∈ ws, ∃ M, ρ.wordValue w = .ok M) → ∃ ms, ρ.elements ws = .ok ms) := by
+  constructor
+  · unfold Rep.elements
+    induction ws with
+    | nil =>
+      intro ms h
+      simp only [List.mapM_nil, pure, Except.pure, Except.ok.injEq] at h
+      subst h; exact List.Forall₂.nil
+    | cons w ws ih =>
+      intro ms h
+      rw [List.mapM_cons] at h
+      cases hw : ρ.wordValue w with
+      | error e => rw [hw] at h; cases h
+      | ok M =>
+        cases hr : ws.mapM ρ.wordValue with
+        | error e => rw [hw, hr] at h; cases h
+        | ok rest =>
+          rw [hw, hr] at h
+          cases h
+          exact List.Forall₂.cons (Rep.wordValue_value hw) (ih rest hr)
+  · intro h
+    obtain ⟨bs, hb, _⟩ := Fox.mapM_forall₂ ρ.wordValue (fun _ _ => True) ws
+      (fun w hw => by obtain ⟨M, hM⟩ := h w hw; exact ⟨M, hM, trivial⟩)
+    exact ⟨bs, hb⟩
+
 /-- every history of assignments `rep[g] = A` (to lower- or upper-case names, re-assignments
 included) keeps the dict invariant — given that `utils.invert` returns an inverse, that the
 name is not its own inverse and that the inverse map is an involution on it (true of
@@ -100,6 +135,14 @@ theorem compose_hom {h : DMat n n R → DMat n n R → M? (DMat m m S)} {ρ : Re
     (hc : ρ.Coherent) (hσ : ρ.compose h = .ok σ) {w : Word} {A : Matrix (Fin n) (Fin n) R}
     (hw : ρ.value w = .ok A) : σ.value w = .ok (H A) :=
   Rep.compose_value H hone hmul hh hc hσ hw
+
+/-- a derived representation keeps the non-matrix data of its source: `invert_gen`,
+`parse_simple` and the relations -/
+theorem compose_keeps_metadata {h : DMat n n R → DMat n n R → M? (DMat m m S)} {ρ : Rep n R} {σ : Rep m S}
+    (hσ : ρ.compose h = .ok σ) :
+    σ.inv = ρ.inv ∧ σ.parseSimple = ρ.parseSimple ∧ σ.relations = ρ.relations := by
+  obtain ⟨h1, h2, h3, _⟩ := Rep.compose_gen hσ
+  exact ⟨h1, h2, h3⟩
 
 /-- … and the composed representation satisfies the dict invariant again -/
 theorem compose_wf {h : DMat n n R → DMat n n R → M? (DMat m m S)} {ρ : Rep n R} {σ : Rep m S}
